@@ -70,7 +70,7 @@ pub fn check_inv(inv : &Inv, runner : &Runner, is_last : bool, mut stats : Optio
                 {
                     if !codes.iter().all(|c| *c == 0) { continue; }
                     let rule = &inv.rules[r];
-                    let srcs : Option<Vec<Vec<u8>>> = rule.sorted_sources().iter().map(|s| ws.get(s).map(|(c, _)| (**c).clone())).collect();
+                    let srcs : Option<Vec<Vec<u8>>> = rule.sorted_sources().iter().map(|s| model::leaf_bytes(s, &|p : &str| ws.get(p).map(|(c, _)| (**c).clone()))).collect();
                     let srcs = match srcs { Some(s) => s, None => continue };
                     if let Some(rec) = runner.record.get(&rule.identity()).and_then(|m| m.get(&srcs))
                     {
@@ -267,6 +267,7 @@ pub fn run_one(cfg : &Config, seed : u64, k : u64, stats : &mut Stats) -> Vec<Fo
     g.failing = false;
     g.missing_leaves = false;
     g.hidden = true;
+    g.dir_leaves = false;   // members of a directory source are declared through the directory, not undeclared inputs
     g.user_damage = false;
     g.rule_edits = false;
     g.exec = rng.chance(1, 3);
